@@ -226,6 +226,28 @@ def check_get_nasa(run, repo, max_seg):
               'a temperature in a gap between two segments lies outside every segment and must be refused, got %s'
               % show(r, 120), owner.module, fn)
     n_inst += 1
+    # the refusal holds for every quantity, for a single temperature and for an array that contains one temperature
+    # outside every segment (the other entries inside)
+    for q in ('CpoR', 'HoRT', 'SoR', 'GoRT'):
+        ownq, fnq = repo.find_method(ci, 'get_' + q)
+        for where, rank in (('below every segment', -5), ('above every segment', 25), ('in a gap', 15)):
+            for form in ('scalar', 'array'):
+                ranks = {'seg0.T_low': 0, 'seg0.T_high': 10, 'seg1.T_low': 10, 'seg1.T_high': 20, 'T': rank, 'Tin': 5}
+                if where == 'in a gap':
+                    ranks.update({'seg1.T_low': 20, 'seg1.T_high': 30})
+                I = Interp(repo, order=RankOrder(ranks))
+                o, segs = nasa9_obj(I, repo, 2)
+                if form == 'scalar':
+                    arg = I.D.sym('T')
+                else:
+                    arg = ListV([I.D.sym('Tin'), I.D.sym('T')])
+                    arg.is_array = True
+                    arg.dtype = 'float'
+                r = I.call_method(o, 'get_' + q, [], {'T': arg})
+                run.check(isinstance(r, Raised), 'PATH.refuse', 'nasa.Nasa9.get_' + q, '%s, %s' % (where, form),
+                          'get_%s with a temperature %s (%s) must be refused with an exception, got %s'
+                          % (q, where, form, show(r, 100)), ownq.module, fnq)
+                n_inst += 1
     return n_inst
 
 
@@ -307,6 +329,36 @@ def class_rules(run, repo, max_len):
         run.fn(owner.qual + '.get_GoRT')
         run.check(same(G, I.binop('-', Hh, Ss)), 'TWIN.G=H-S', 'shomate.Shomate.get_GoRT', 'S_elements=%s' % sel,
                   'GoRT differs from HoRT - SoR under identical arguments', owner.module, fn)
+    # the class getters evaluate the species' own coefficients in the species' own fitting unit
+    for units in ('symbolic', 'J/mol/K', 'kJ/mol/K', 'cal/mol/K', 'kcal/mol/K', 'eV/K'):
+        Iu = Interp(repo, order=RankOrder({'sp.T_low': 1, 'sp.T_high': 5, 'T': 3}))
+        uval = Iu.D.sym('units') if units == 'symbolic' else units
+        misc = attached_models(Iu, 2)
+        ou = Obj('sp', sci, attrs={'a': coeff_vector(Iu, 'a', 8), 'misc_models': misc, 'name': 'sp'})
+        set_public(Iu, ou, 'units', uval)
+        sel_opaque(ou)
+        Tu, Pu = Iu.D.sym('T'), Iu.D.sym('P')
+        for q in ('CpoR', 'HoRT', 'SoR'):
+            got = Iu.call_method(ou, 'get_' + q, [], {'T': Tu, 'P': Pu})
+            mq, fq = fn_of(repo, SHO, 'get_shomate_' + q)
+            bare = Iu.call_function(mq, fq, [], {'a': ou.attrs['a'], 'T': Elem(Tu), 'units': uval})
+            bare = bare.r if isinstance(bare, Elem) else bare
+            want = Iu.binop('+', bare, attached_sum(Iu, misc, q, T=Tu, P=Pu))
+            owner, fn = repo.find_method(sci, 'get_' + q)
+            run.check(same(got, want), 'SEGMENT.use', 'shomate.Shomate.get_' + q, 'units:%s' % units,
+                      'with fitting unit %s the value is not the Shomate evaluator applied to the species\' coefficients '
+                      'in that unit plus the attached-model sum: %s, expected %s' % (units, show(got, 160), show(want, 160)),
+                      owner.module, fn)
+            if units not in ('symbolic', 'J/mol/K'):
+                # the same coefficients in another unit: the dimensionless value scales with R(J/mol/K)/R(unit)
+                ref = Iu.call_function(mq, fq, [], {'a': ou.attrs['a'], 'T': Elem(Tu), 'units': 'J/mol/K'})
+                ref = ref.r if isinstance(ref, Elem) else ref
+                RJ = Iu.D.sym('kb') * Iu.D.sym('Na')
+                Ru = Iu.native['pmutt.constants.R'](Iu, None, [units], {}, None)       # the unit model (verified by C12)
+                run.check(isinstance(Ru, Rat) and same(bare * Ru, ref * RJ), 'DIM.units', 'shomate.get_shomate_' + q,
+                          'units:%s' % units,
+                          'the evaluator in %s times R(%s) differs from the evaluator in J/mol/K times R(J/mol/K): the '
+                          'coefficients carry the fitting unit, nothing else may depend on it' % (units, units), mq, fq)
     m, f = fn_of(repo, SHO, 'get_shomate_GoRT')
     a8 = coeff_vector(I, 'a', 8)
     u = I.D.sym('units')
@@ -318,20 +370,20 @@ def class_rules(run, repo, max_len):
               'get_shomate_GoRT differs from get_shomate_HoRT - get_shomate_SoR', m, f)
 
     # ---- scalar / array agreement (BRANCH-TWIN, bounded unrolling) ----------
-    def make(kind, n):
+    def make(kind, n, with_misc=False):
         if kind == 'Nasa':
             # elements alternate between the low and high segment, one exactly on T_mid
             ranks = {'sp.T_low': 1, 'sp.T_mid': 3, 'sp.T_high': 5}
             for i, r in enumerate([2, 4, 3, 2, 4][:n]):
                 ranks['T%d' % i] = r
             I = Interp(repo, order=RankOrder(ranks))
-            return I, nasa_obj(I, repo)
+            return I, nasa_obj(I, repo, misc=attached_models(I, 1, params=('T',)) if with_misc else None)
         if kind == 'Nasa9':
             ranks = seg_ranks(2)
             for i, r in enumerate([5, 15, 10, 3, 17][:n]):
                 ranks['T%d' % i] = r
             I = Interp(repo, order=RankOrder(ranks))
-            return I, nasa9_obj(I, repo, 2)[0]
+            return I, nasa9_obj(I, repo, 2, misc=attached_models(I, 1, params=('T',)) if with_misc else None)[0]
         ranks = {'sp.T_low': 1, 'sp.T_high': 5}
         for i in range(n):
             ranks['T%d' % i] = 3
@@ -341,6 +393,23 @@ def class_rules(run, repo, max_len):
         sel_opaque(o)
         return I, o
 
+    # with a model attached (its contribution depends on T): every entry of the array carries the model's value at its
+    # own temperature
+    for kind in ('Nasa', 'Nasa9'):
+        for q in ('CpoR', 'HoRT', 'SoR', 'GoRT'):
+            I, o = make(kind, 3, with_misc=True)
+            Ts = [I.D.sym('T%d' % i) for i in range(3)]
+            arr = ListV(list(Ts))
+            arr.is_array = True
+            arr.dtype = 'float'
+            owner, fn = repo.find_method(o.ci, 'get_' + q)
+            got = I.call_method(o, 'get_' + q, [], {'T': arr})
+            each = [I.call_method(o, 'get_' + q, [], {'T': t}) for t in Ts]
+            ok = isinstance(got, ListV) and len(got) == 3 and all(same(x, y) for x, y in zip(got.items, each))
+            run.check(ok, 'BRANCH-TWIN', 'nasa.%s.get_%s' % (kind, q), 'array-vs-elementwise with an attached model',
+                      'with a model attached the array result %s differs from element-by-element evaluation %s'
+                      % (show(got, 200), show(ListV(each), 200)), owner.module, fn)
+            n_bt += 1
     for kind, modname in (('Nasa', 'nasa'), ('Nasa9', 'nasa'), ('Shomate', 'shomate')):
         for q in ('CpoR', 'HoRT', 'SoR', 'GoRT'):
             bad = None
